@@ -351,9 +351,16 @@ fn build_corpus(ctx: &Ctx, env_key: &KeyPair) -> Corpus {
 		if i % 4 == 0 {
 			fill_presence(&mut rng, &mut s, Presence::from_bits(127));
 		}
-		if let Ok(c) = s.to_rcgen(None).self_signed(env_key) {
-			pem.push(c.pem());
-			der.push(("cert", c.der().to_vec()));
+		match crate::guard(|| s.to_rcgen(None).self_signed(env_key)) {
+			Ok(Ok(c)) => {
+				pem.push(c.pem());
+				der.push(("cert", c.der().to_vec()));
+			},
+			Ok(Err(_)) => {},
+			Err(p) => {
+				let case = CaseId::new("corpus-generation", ctx.seed, i);
+				report(ctx, &case, "self_signed(corpus)", &format!("{:?}", s), &p);
+			},
 		}
 	}
 	// certificates made by OpenSSL
